@@ -121,6 +121,8 @@ def worker(args):
     with isa.ModeCtx(dis, k):
         inputs = [(kd, b, None) for kd, b in c04.gen_inputs(rng, name, dis, specs, nrandom, nspec)] + pair_inputs()
         inputs += [(kd, b, None) for kd, b in modrm_sweep()]
+        inputs += [("word-sweep", b, None) for b in c04.word_sweep(name, specs, ml, seed, 8)]
+        inputs += [("leb-sweep", b, None) for b in c04.leb_sweep(rng, specs, ml)]
         for kind, b, forced in inputs:
             res["n"] += 1
             o = d(b)
